@@ -222,6 +222,7 @@ def run(cx):
         "clang -fsyntax-only against a mock Arduino core; helper snippets are instantiated for int/float/String; the "
         "string escaper is evaluated over all printable ASCII; section order and helper pairing are checked on the extracted "
         "text.  Whether a particular user program's hoisted variables are in scope is not decided."
+        ' Since round 10 every accepted script of the whole-sketch corpus (sa/e2e.py) must also yield a translation unit clang accepts.'
     )
     tier = cx.tier
 
